@@ -55,9 +55,28 @@ def handle_c10(req):
         return {"error": "".join(traceback.format_exception(exc))[-800:], "type": type(exc).__name__, "stage": stage}
 
 
+def handle_c07(req):
+    import shutil
+    import tempfile
+
+    from sim.machines import c07
+
+    scratch = tempfile.mkdtemp(prefix="verif-c07-srv-", dir="/dev/shm" if os.path.isdir("/dev/shm") else None)
+    try:
+        w = c07.World(req)
+        res = c07.execute(req["op"], w, scratch, "fresh")
+        return {"digest": dig(c07.canon(res))}
+    except Exception as exc:  # noqa: BLE001
+        return {"error": "".join(traceback.format_exception(exc))[-800:], "type": type(exc).__name__, "stage": "execute"}
+    finally:
+        shutil.rmtree(scratch, ignore_errors=True)
+
+
 def handle(req):
     if req.get("c10"):
         return handle_c10(req)
+    if req.get("c07"):
+        return handle_c07(req)
     stage = "load"
     try:
         m = construct(req["kind"])
@@ -65,6 +84,8 @@ def handle(req):
         st = model_state(m)
         stage = "predict"
         X = np.array(req["rows"], dtype=np.float64)
+        if req.get("dtype", "float64") != "float64":
+            X = X.astype(req["dtype"])
         if req["pre"]:
             res = m.predict(X, np.array(req["idx"], dtype=np.int64))
         else:
